@@ -287,10 +287,22 @@ def sugar_table():
         ("a+(b+c)", lambda: A() + (B() + W()), lambda: pp.And([A(), B(), W()])),
         ("(a|b)|c", lambda: (A() | B()) | W(), lambda: pp.MatchFirst([A(), B(), W()])),
         ("(a^b)^c", lambda: (A() ^ B()) ^ W(), lambda: pp.Or([A(), B(), W()])),
+        # the same equivalences where the sequence is an operand of another combinator that looks at its flags
+        # (Each files an operand that may match empty as optional; Opt / alternation / repetition around it)
+        ("((a?+b?)+c)&d", lambda: ((pp.Opt(A()) + pp.Opt(B())) + pp.Literal("c")) & pp.Literal("d"),
+         lambda: pp.And([pp.Opt(A()), pp.Opt(B()), pp.Literal("c")]) & pp.Literal("d")),
+        ("(a?+(b?+c))&d", lambda: (pp.Opt(A()) + (pp.Opt(B()) + pp.Literal("c"))) & pp.Literal("d"),
+         lambda: pp.And([pp.Opt(A()), pp.Opt(B()), pp.Literal("c")]) & pp.Literal("d")),
+        ("(a?*2+c)&d", lambda: (pp.Opt(A()) * 2 + pp.Literal("c")) & pp.Literal("d"),
+         lambda: (lambda o: pp.And([o, o, pp.Literal("c")]))(pp.Opt(A())) & pp.Literal("d")),
+        ("((a?+b?)+c)[...]", lambda: ((pp.Opt(A()) + pp.Opt(B())) + pp.Literal("c"))[...], lambda: pp.ZeroOrMore(pp.And([pp.Opt(A()), pp.Opt(B()), pp.Literal("c")]))),
+        ("((a?+b?)+c)|a", lambda: ((pp.Opt(A()) + pp.Opt(B())) + pp.Literal("c")) | A(), lambda: pp.MatchFirst([pp.And([pp.Opt(A()), pp.Opt(B()), pp.Literal("c")]), A()])),
+        ("((a|b)|c)&d", lambda: ((A() | B()) | pp.Literal("c")) & pp.Literal("d"), lambda: pp.MatchFirst([A(), B(), pp.Literal("c")]) & pp.Literal("d")),
     ]
 
 
-SUGAR_INPUTS = INPUTS + ["a a", "a a a", "a a a a a", "ab ab b", "a xx b", "ab", "b", "a b ab", "aaa", "abab ab"]
+SUGAR_INPUTS = INPUTS + ["a a", "a a a", "a a a a a", "ab ab b", "a xx b", "ab", "b", "a b ab", "aaa", "abab ab",
+                         "c d", "c c d", "c d c", "a c d b c", "d a b c", "a b c d", "c", "a c b c", "d c c"]
 
 
 def sugar_checks(ctx):
